@@ -1815,7 +1815,9 @@ func (r *Runtime) toValue(i interface{}, origValue reflect.Value) Value {
 	case string:
 		if len(i) <= 16 {
 			if u := unistring.Scan(i); u != nil {
-				return &importedString{s: i, u: u, scanned: true}
+				is := &importedString{s: i, u: u}
+				is.scanned.Store(true)
+				return is
 			}
 			return asciiString(i)
 		}
